@@ -61,3 +61,10 @@ CASES += [
         (D, "            with energy_units(\"int\"):\n                Y = numpy.fft.fftshift(numpy.fft.fft(\n                    numpy.fft.ifftshift(y)))*w.step/(numpy.pi*2.0)",
          "            if True:\n                Y = numpy.fft.fftshift(numpy.fft.fft(\n                    numpy.fft.ifftshift(y)))*w.step/(numpy.pi*2.0)", 1)]},
 ]
+
+DF = "quantarhei/core/dfunction.py"
+CASES += [
+    {"name": "inverse transform kept on the function after the first call", "kind": "mutant", "rule": "C13-E", "edits": [
+        (DF, "    def get_inverse_Fourier_transform(self):",
+         "    def get_inverse_Fourier_transform(self):\n        if getattr(self, \"_ift\", None) is None:\n            self._ift = self._get_inverse_Fourier_transform()\n        return self._ift\n\n    def _get_inverse_Fourier_transform(self):", 1)]},
+]
